@@ -498,8 +498,11 @@ async def pairwise(iterable: AnyIterable[T]) -> AsyncIterator[Tuple[T, T]]:
     ``pairwise`` will wait for and consume it before finishing.
     """
     async with ScopedIter(iterable) as async_iter:
-        # any default is fine – we never yield it if there are not at least two items
-        prev = await anext(async_iter, None)
+        try:
+            prev = await anext(async_iter)
+        except StopAsyncIteration:
+            # empty iterable: do not poll the iterator again
+            return
         async for current in async_iter:
             yield prev, current  # type: ignore
             prev = current
